@@ -45,6 +45,23 @@ CHECKS = {
         'ref': 'DESIGN.md section 3 C06', 'note': NOTE_COMMON,
         'technique': 'deterministic simulation: linearisation order from the lock model + sequential bounded-FIFO reference',
     },
+    'C10': {
+        'text': 'One concurrent workload (2-16 tasks mixing reads, flush, low-/high-level sends and every getter, continuous uplink traffic, auto-flush) under the deterministic '
+                'scheduler with three detectors: a ThreadSanitizer build in which the baton hand-off is invisible and all harness code is bracketed by ignore annotations, so only '
+                'the library\'s own locks create happens-before and an unsynchronised access pair is reported although the run is serialised; a lock-contract monitor generated '
+                'from the \'Shall only be called with ...\' comments of the current tree (armed only between start and stop); and an atomicity oracle (entity updates derive all '
+                'fields from one counter, getter results must be internally consistent; unique queue messages are read exactly once).',
+        'ref': 'DESIGN.md section 3 C10', 'note': NOTE_COMMON + '; preemption at synchronisation points and function entries, not at every instruction (TSan compensates for races, nothing does for a torn update inside one function body between two plain accesses)',
+        'technique': 'deterministic simulation: seeded scheduler + ThreadSanitizer with invisible baton + generated lock-contract monitor + atomicity oracle',
+    },
+    'C11': {
+        'text': 'Seeded search over every public call x argument classes (valid, unknown id, NULL, disconnected, undefined aspect, out of range), every uplink type incl. node '
+                'new/lost during the start-up dialogue, rejected configurations and system resets. The simulator owns lock state: the held set is compared at entry and return of '
+                'every call, deadlock / self-deadlock / a lock that is never granted are decided by the scheduler (no wall-clock timeout), and the lock-order graph merged over '
+                'all runs of a check must be acyclic (cycles of pure read re-acquisition excepted).',
+        'ref': 'DESIGN.md section 3 C11', 'note': NOTE_COMMON,
+        'technique': 'deterministic simulation: lock model (held sets, wait-for graph) + merged lock-order graph',
+    },
     'C12': {
         'text': 'Hostile uplink streams (random, mutated, grammar-generated CRC-valid packets with adversarial length/address/type/field values, oversized frames) in debug and '
                 'normal mode against generated configurations, under ASan/UBSan with deterministic fill patterns; then a liveness probe: a known-good packet must still be processed.',
